@@ -754,6 +754,7 @@ void run(Src &src, Case &c)
         doc = applyEdit(doc, es, c);
     }
     PipelineCfg cfg;
+    bool aimedLibrary = false;
     cfg.strict = (cfgBits & 1) == 0 && !opt.v1x;
     cfg.selfLibrary = (cfgBits & 2) != 0;
     if ((cfgBits & 4) != 0) {
@@ -819,8 +820,29 @@ void run(Src &src, Case &c)
             cfg.extraDoc = applyEdit(cfg.extraDoc, es, c);
             c.cls("library-document:edited");
         }
+        if (lo.v1x && editTapes[nEdits][2] % 2 == 0) {
+            // aimed: a 1.x library file with a parser ERROR that is not an XML error (kind 13 deletes a required attribute); a
+            // permissive importer then converts the file, reports about it and copies / erases issues (seeded/C01-2, C15-1)
+            if (editTapes[nEdits][1] % 2 == 0) {
+                std::vector<uint32_t> t = editTapes[nEdits];
+                t[0] = tapeUnmix(13);
+                TapeSrc es(t);
+                cfg.extraDoc = applyEdit(cfg.extraDoc, es, c);
+            } else {
+                // an error that has nothing to do with what is imported: a further component with a nameless variable
+                size_t end = cfg.extraDoc.rfind("</model>");
+                if (end != std::string::npos) {
+                    cfg.extraDoc.insert(end, "<component name=\"vp_unrelated\"><variable units=\"dimensionless\"/></component>");
+                }
+            }
+            c.cls("library-document:1.x-with-parser-error");
+            aimedLibrary = true;
+        }
     }
-    cfg.libraryFiles = editTapes[nEdits][3] % 4 != 0;
+    cfg.libraryFiles = aimedLibrary || editTapes[nEdits][3] % 4 != 0;
+    if (aimedLibrary) {
+        cfg.strict = false; // a permissive importer is the one that converts 1.x files
+    }
     if (doc.size() > 65536) {
         doc.resize(65536);
     }
